@@ -1,20 +1,23 @@
-(* C14 — the functions that contain a panic site, written as FUNCTIONALS of the
-   panicking operation, for the coverage column of the table of panic sites
-   (model/UntrustedPanicSites.v: CModel op w F reach f same pf, CLemma raw w F
-   reach pf).  For each functional F:
-     F_same   F over the real operation IS the function of the model / the
-              as-written body of model/UntrustedSites.v (mostly by reflexivity:
-              F is that body with the operation abstracted)
-     F_reach  with an always-panicking operation in its place, F panics on
-              some input: the operation is really reached
-     F_np     over the real operation F never panics *)
+(* C14 — the functions that contain a panic site, written as FUNCTIONALS of a
+   GUARD SWITCH and of the panicking operation, for the coverage column of the
+   table of panic sites (model/UntrustedPanicSites.v: CModel op F necessary f
+   same pf, CLemma raw F necessary pf).  For each functional G:
+     G true op    the function with the test(s) the Go code puts in front of the
+                  expression; G false op the same statements with those tests
+                  deleted (a test `if c { return error }` becomes `if g && c`)
+     G_same       G true over the real operation IS the function of the model
+                  (by reflexivity: it is that body with the operation and the
+                  switch abstracted)
+     G_necessary  with the tests deleted the REAL operation panics on some input
+                  of the function: the guard is needed, and the input reaches
+                  the operation
+     G_np         with the tests in place the function never panics *)
 From Coq Require Import String List NArith ZArith Bool Lia.
 From Tink Require Import Bytes UntrustedConsts Untrusted UntrustedSpec UntrustedProofs.
 From Tink Require Import UntrustedSites UntrustedSitesProofs UntrustedParams UntrustedParamsProofs.
 Import ListNotations.
 Open Scope list_scope.
 
-Definition always_panic {X Y} : X -> outcome Y := fun _ => Panic.
 
 (* ------------------------------------------------------------------ *)
 (* operations of the model, uncurried                                  *)
@@ -23,10 +26,6 @@ Definition slice3 (q : nat * nat * bytes) : outcome bytes := slice (fst (fst q))
 Definition encode_point3 (q : bytes * bytes * nat) : outcome bytes := encode_point (fst (fst q)) (snd (fst q)) (snd q).
 Definition from_seed2 (q : stdlib * bytes) : outcome bytes := ed25519_from_seed (fst q) (snd q).
 
-Lemma slice3_panics : exists q, slice3 q = Panic.
-Proof. exists (1%nat, 0%nat, []). reflexivity. Qed.
-Lemma encode_point3_panics : exists q, encode_point3 q = Panic.
-Proof. exists ([1; 2; 3; 4]%N, [5%N], 2%nat). reflexivity. Qed.
 
 Definition std_none : stdlib :=
   mkStd (fun _ _ => false) (fun _ _ => None) (fun _ => []) (fun _ _ => None) (fun _ _ => [])
@@ -36,36 +35,13 @@ Definition std_yes : stdlib :=
   mkStd (fun _ _ => true) (fun _ _ => None) (fun seed => seed) (fun _ _ => None) (fun _ _ => [])
         (fun _ _ _ _ _ => None) (fun _ _ _ _ _ _ _ _ => false) (fun _ _ => []).
 
-Lemma from_seed2_panics : exists q, from_seed2 q = Panic.
-Proof. exists (std_none, []). reflexivity. Qed.
-Lemma ecdsa_point_slices_panics : exists pt, ecdsa_point_slices pt = Panic.
-Proof. exists []. reflexivity. Qed.
-Lemma set_prefix_raw_panics : exists o, set_prefix_raw o = Panic.
-Proof. exists None. reflexivity. Qed.
 
 Section ModelFunctionals.
 Open Scope N_scope.
 
-(* ---- internal/ec BigIntBytesToFixedSizeBuffer: bigIntBytes[len-size:] ---- *)
-Definition fixed_size_F (sl : nat * nat * bytes -> outcome bytes) (p : bytes * nat) : outcome bytes :=
-  let b := fst p in
-  let size := snd p in
-  if Nat.eqb (length b) size then Ok b
-  else if Nat.ltb (length b) size then Ok (zeros (size - length b) ++ b)
-  else if all_zero (firstn (length b - size) b)
-       then sl ((length b - size)%nat, length b, b)
-       else Err.
-Definition fixed_size2 (p : bytes * nat) : outcome bytes := fixed_size (fst p) (snd p).
-
-Lemma fixed_size_F_same p : fixed_size_F slice3 p = fixed_size2 p.
-Proof. reflexivity. Qed.
-Lemma fixed_size_F_reach : exists p, fixed_size_F always_panic p = Panic.
-Proof. exists ([0; 1], 1%nat). reflexivity. Qed.
-Lemma fixed_size2_np p : fixed_size2 p <> Panic.
-Proof. apply fixed_size_np. Qed.
-
 (* ---- signature/ecdsa newPublicKeyFromProto: encodePoint(x, y, c) ---- *)
-Definition ecdsa_pub_of_F (ep : bytes * bytes * nat -> outcome bytes) (a : stdlib * list field * N * N)
+(* guard: both coordinates go through BigIntBytesToFixedSizeBuffer(., c) - exactly c bytes each *)
+Definition ecdsa_pub_of_F (g : bool) (ep : bytes * bytes * nat -> outcome bytes) (a : stdlib * list field * N * N)
   : outcome (N * N * N * bytes) :=
   let L := fst (fst (fst a)) in
   let fs := snd (fst (fst a)) in
@@ -80,8 +56,8 @@ Definition ecdsa_pub_of_F (ep : bytes * bytes * nat -> outcome bytes) (a : stdli
   else match coord_size curve with
        | None => Err
        | Some c =>
-           bind (fixed_size (get_len 3 fs) c) (fun x =>
-           bind (fixed_size (get_len 4 fs) c) (fun y =>
+           bind (if g then fixed_size (get_len 3 fs) c else Ok (get_len 3 fs)) (fun x =>
+           bind (if g then fixed_size (get_len 4 fs) c else Ok (get_len 4 fs)) (fun y =>
            bind (ep (x, y, c)) (fun pt =>
            if negb (negb (prefix =? pt_raw) || (idreq =? 0)) then Err
            else if ec_point_ok L curve pt then Ok (curve, hash, enc, pt) else Err)))
@@ -89,18 +65,20 @@ Definition ecdsa_pub_of_F (ep : bytes * bytes * nat -> outcome bytes) (a : stdli
 Definition ecdsa_pub_of4 (a : stdlib * list field * N * N) :=
   ecdsa_pub_of (fst (fst (fst a))) (snd (fst (fst a))) (snd (fst a)) (snd a).
 
-Lemma ecdsa_pub_of_F_same a : ecdsa_pub_of_F encode_point3 a = ecdsa_pub_of4 a.
+Lemma ecdsa_pub_of_F_same a : ecdsa_pub_of_F true encode_point3 a = ecdsa_pub_of4 a.
 Proof. reflexivity. Qed.
-Lemma ecdsa_pub_of_F_reach : exists a, ecdsa_pub_of_F always_panic a = Panic.
+(* a 40-byte x coordinate for P-256, not normalised: encodePoint's xStartPos is negative *)
+Lemma ecdsa_pub_of_F_necessary : exists a, ecdsa_pub_of_F false encode_point3 a = Panic.
 Proof.
-  exists (std_none, [(2, FLen [8; 3; 16; 2; 24; 2]); (3, FLen (repeat 1 32%nat)); (4, FLen (repeat 1 32%nat))], 1, 0).
+  exists (std_none, [(2, FLen [8; 3; 16; 2; 24; 2]); (3, FLen (repeat 1 40%nat)); (4, FLen (repeat 1 32%nat))], 1, 0).
   vm_compute. reflexivity.
 Qed.
 Lemma ecdsa_pub_of4_np a : ecdsa_pub_of4 a <> Panic.
 Proof. apply ecdsa_pub_of_np. Qed.
 
 (* ---- signature/ed25519 NewPrivateKeyWithPublicKey: ed25519.NewKeyFromSeed(seed) ---- *)
-Definition parse_ed25519_priv_F (fromseed : stdlib * bytes -> outcome bytes) (a : stdlib * keydata * N * N) : outcome pkd :=
+(* guard: if privateKeyBytes.Len() != 32 { return error } *)
+Definition parse_ed25519_priv_F (g : bool) (fromseed : stdlib * bytes -> outcome bytes) (a : stdlib * keydata * N * N) : outcome pkd :=
   let L := fst (fst (fst a)) in
   let kd := snd (fst (fst a)) in
   let prefix := snd (fst a) in
@@ -113,26 +91,30 @@ Definition parse_ed25519_priv_F (fromseed : stdlib * bytes -> outcome bytes) (a 
   let seed := get_len 2 fs in
   if negb ((get_u32 1 fs =? 0) && (get_u32 1 pub =? 0) && variant_ok prefix idreq
            && (blen (get_len 2 pub) =? ed25519_pub_size)) then Err
-  else if negb (blen seed =? ed25519_seed_size) then Err
+  else if g && negb (blen seed =? ed25519_seed_size) then Err
   else bind (fromseed (L, seed)) (fun pk =>
        if beq pk (get_len 2 pub) then Ok (PEd25519Priv seed) else Err).
 Definition parse_ed25519_priv4 (a : stdlib * keydata * N * N) :=
   parse_ed25519_priv (fst (fst (fst a))) (snd (fst (fst a))) (snd (fst a)) (snd a).
 
 Definition ed_kd (seed pub : bytes) : keydata :=
-  mkKD u_ed25519_priv ([18; 32] ++ seed ++ [26; 34; 18; 32] ++ pub) km_private.
+  mkKD u_ed25519_priv ([18; blen seed] ++ seed ++ [26; 34; 18; 32] ++ pub) km_private.
 
-Lemma parse_ed25519_priv_F_same a : parse_ed25519_priv_F from_seed2 a = parse_ed25519_priv4 a.
+Lemma parse_ed25519_priv_F_same a : parse_ed25519_priv_F true from_seed2 a = parse_ed25519_priv4 a.
 Proof. reflexivity. Qed.
-Lemma parse_ed25519_priv_F_reach : exists a, parse_ed25519_priv_F always_panic a = Panic.
-Proof. exists (std_none, ed_kd (repeat 9 32%nat) (repeat 9 32%nat), 1, 5). vm_compute. reflexivity. Qed.
+(* a 31-byte seed: ed25519.NewKeyFromSeed panics *)
+Lemma parse_ed25519_priv_F_necessary : exists a, parse_ed25519_priv_F false from_seed2 a = Panic.
+Proof. exists (std_none, ed_kd (repeat 9 31%nat) (repeat 9 32%nat), 1, 5). vm_compute. reflexivity. Qed.
 Lemma parse_ed25519_priv4_np a : parse_ed25519_priv4 a <> Panic.
 Proof. apply parse_ed25519_priv_np. Qed.
 
 (* ---- signature/ed25519 NewSigner: NewKeyFromSeed on the seed of a parsed key ---- *)
-Definition ed25519_signer_F (fromseed : stdlib * bytes -> outcome bytes) (a : stdlib * keydata * N * N) : outcome bool :=
+(* guard: a *PrivateKey exists only through the parser / constructors, which checked the seed length;
+   guard off: a key object holding the key data's bytes as seed, unchecked *)
+Definition ed25519_signer_F (g : bool) (fromseed : stdlib * bytes -> outcome bytes) (a : stdlib * keydata * N * N) : outcome bool :=
   let L := fst (fst (fst a)) in
-  bind (parse_ed25519_priv L (snd (fst (fst a))) (snd (fst a)) (snd a)) (fun d =>
+  bind (if g then parse_ed25519_priv L (snd (fst (fst a))) (snd (fst a)) (snd a)
+        else Ok (PEd25519Priv (kd_value (snd (fst (fst a)))))) (fun d =>
     match d with
     | PEd25519Priv seed => bind (fromseed (L, seed)) (fun _ => Ok true)
     | d' => prim_ok L d'
@@ -140,13 +122,13 @@ Definition ed25519_signer_F (fromseed : stdlib * bytes -> outcome bytes) (a : st
 Definition ed25519_signer4 (a : stdlib * keydata * N * N) : outcome bool :=
   bind (parse_ed25519_priv (fst (fst (fst a))) (snd (fst (fst a))) (snd (fst a)) (snd a)) (prim_ok (fst (fst (fst a)))).
 
-Lemma ed25519_signer_F_same a : ed25519_signer_F from_seed2 a = ed25519_signer4 a.
+Lemma ed25519_signer_F_same a : ed25519_signer_F true from_seed2 a = ed25519_signer4 a.
 Proof.
   unfold ed25519_signer_F, ed25519_signer4. cbv zeta.
   destruct (parse_ed25519_priv _ _ _ _) as [d| |]; cbn [bind]; try reflexivity. destruct d; reflexivity.
 Qed.
-Lemma ed25519_signer_F_reach : exists a, ed25519_signer_F always_panic a = Panic.
-Proof. exists (std_yes, ed_kd (repeat 9 32%nat) (repeat 9 32%nat), 1, 5). vm_compute. reflexivity. Qed.
+Lemma ed25519_signer_F_necessary : exists a, ed25519_signer_F false from_seed2 a = Panic.
+Proof. exists (std_none, mkKD [] [1; 2; 3] 0, 1, 5). vm_compute. reflexivity. Qed.
 Lemma ed25519_signer4_np a : ed25519_signer4 a <> Panic.
 Proof.
   unfold ed25519_signer4. destruct (parse_ed25519_priv _ _ _ _) as [d| |] eqn:E; cbn [bind]; try discriminate.
@@ -155,9 +137,12 @@ Proof.
 Qed.
 
 (* ---- signature/ecdsa NewSigner / NewVerifier (and the JWT ECDSA forms): publicPoint[1:], xy[:n/2], xy[n/2:] ---- *)
-Definition ecdsa_prim_F (slices : bytes -> outcome bool) (a : stdlib * keydata * N * N) : outcome bool :=
+(* guard: NewPublicKey validated the point (crypto/ecdh: 1 + 2c bytes); guard off: a key object
+   holding the key data's bytes as point, unchecked *)
+Definition ecdsa_prim_F (g : bool) (slices : bytes -> outcome bool) (a : stdlib * keydata * N * N) : outcome bool :=
   let L := fst (fst (fst a)) in
-  bind (parse_key L (snd (fst (fst a))) (snd (fst a)) (snd a)) (fun d =>
+  bind (if g then parse_key L (snd (fst (fst a))) (snd (fst a)) (snd a)
+        else Ok (PEcdsaPub 0 0 0 (kd_value (snd (fst (fst a)))))) (fun d =>
     match d with
     | PEcdsaPub _ _ _ pt | PEcdsaPriv _ _ _ pt _ | PJwtEcdsa _ _ pt => slices pt
     | d' => prim_ok L d'
@@ -165,15 +150,13 @@ Definition ecdsa_prim_F (slices : bytes -> outcome bool) (a : stdlib * keydata *
 Definition parse_then_prim4 (a : stdlib * keydata * N * N) : outcome bool :=
   bind (parse_key (fst (fst (fst a))) (snd (fst (fst a))) (snd (fst a)) (snd a)) (prim_ok (fst (fst (fst a)))).
 
-Lemma ecdsa_prim_F_same a : ecdsa_prim_F ecdsa_point_slices a = parse_then_prim4 a.
+Lemma ecdsa_prim_F_same a : ecdsa_prim_F true ecdsa_point_slices a = parse_then_prim4 a.
 Proof.
   unfold ecdsa_prim_F, parse_then_prim4. cbv zeta.
   destruct (parse_key _ _ _ _) as [d| |]; cbn [bind]; try reflexivity. destruct d; reflexivity.
 Qed.
-Definition ecdsa_pub_kd : keydata :=
-  mkKD u_ecdsa_pub ([18; 6; 8; 3; 16; 2; 24; 2; 26; 32] ++ repeat 1 32%nat ++ [34; 32] ++ repeat 1 32%nat) km_public.
-Lemma ecdsa_prim_F_reach : exists a, ecdsa_prim_F always_panic a = Panic.
-Proof. exists (std_yes, ecdsa_pub_kd, 1, 5). vm_compute. reflexivity. Qed.
+Lemma ecdsa_prim_F_necessary : exists a, ecdsa_prim_F false ecdsa_point_slices a = Panic.
+Proof. exists (std_none, mkKD [] [] 0, 1, 5). vm_compute. reflexivity. Qed.
 Lemma parse_then_prim4_np a : parse_then_prim4 a <> Panic.
 Proof.
   unfold parse_then_prim4. destruct (parse_key _ _ _ _) as [d| |] eqn:E; cbn [bind]; try discriminate.
@@ -182,7 +165,8 @@ Proof.
 Qed.
 
 (* ---- internal/signature/slhdsa DecodeSecretKey: skEnc[2n:3n], skEnc[3n:4n] ---- *)
-Definition parse_slhdsa_priv_F (sl : nat * nat * bytes -> outcome bytes) (a : keydata * N * N) : outcome pkd :=
+(* guard: checkPrivateKeyLengthForParameters / if len(skEnc) != p.SecretKeyLength() { return error } *)
+Definition parse_slhdsa_priv_F (g : bool) (sl : nat * nat * bytes -> outcome bytes) (a : keydata * N * N) : outcome pkd :=
   let kd := fst (fst a) in
   let prefix := snd (fst a) in
   let idreq := snd a in
@@ -195,7 +179,7 @@ Definition parse_slhdsa_priv_F (sl : nat * nat * bytes -> outcome bytes) (a : ke
   | None => Err
   | Some ks =>
       let sk := get_len 2 fs in
-      if negb (blen sk =? ks) then Err
+      if g && negb (blen sk =? ks) then Err
       else
         let n := N.to_nat (ks / 4) in
         bind (sl ((2 * n)%nat, (3 * n)%nat, sk)) (fun pk_seed =>
@@ -204,17 +188,19 @@ Definition parse_slhdsa_priv_F (sl : nat * nat * bytes -> outcome bytes) (a : ke
   end.
 Definition parse_slhdsa_priv3 (a : keydata * N * N) := parse_slhdsa_priv (fst (fst a)) (snd (fst a)) (snd a).
 
-Lemma parse_slhdsa_priv_F_same a : parse_slhdsa_priv_F slice3 a = parse_slhdsa_priv3 a.
+Lemma parse_slhdsa_priv_F_same a : parse_slhdsa_priv_F true slice3 a = parse_slhdsa_priv3 a.
 Proof. reflexivity. Qed.
+(* a 10-byte private key with parameters that want 64: skEnc[2n:3n] is out of range *)
 Definition slh_kd : keydata :=
-  mkKD u_slhdsa_priv ([18; 64] ++ repeat 3 64%nat ++ [26; 42; 18; 32] ++ repeat 3 32%nat ++ [26; 6; 8; 64; 16; 1; 24; 1]) km_private.
-Lemma parse_slhdsa_priv_F_reach : exists a, parse_slhdsa_priv_F always_panic a = Panic.
+  mkKD u_slhdsa_priv ([18; 10] ++ repeat 3 10%nat ++ [26; 42; 18; 32] ++ repeat 3 32%nat ++ [26; 6; 8; 64; 16; 1; 24; 1]) km_private.
+Lemma parse_slhdsa_priv_F_necessary : exists a, parse_slhdsa_priv_F false slice3 a = Panic.
 Proof. exists (slh_kd, 1, 5). vm_compute. reflexivity. Qed.
 Lemma parse_slhdsa_priv3_np a : parse_slhdsa_priv3 a <> Panic.
 Proof. apply parse_slhdsa_priv_np. Qed.
 
 (* ---- hybrid/ecies parseParameters: demTemplate.OutputPrefixType = RAW on the cloned AEAD DEM template ---- *)
-Definition ecies_params_F (spr : option template -> outcome template) (a : list field * N) : outcome params :=
+(* guard: if protoParams.GetDemParams().GetAeadDem() == nil { return error } *)
+Definition ecies_params_F (g : bool) (spr : option template -> outcome template) (a : list field * N) : outcome params :=
   let ps := fst a in
   let prefix := snd a in
   let kem := get_sub 1 ps in
@@ -224,7 +210,7 @@ Definition ecies_params_F (spr : option template -> outcome template) (a : list 
   if negb (ecies_curve_ok curve && is_some (digest_size hash) && is_some (aead_variant prefix)
            && ecies_format_ok fmt) then Err
   else if negb (has_sub 2 ps) then Err
-  else if negb (is_some (aead_dem_ptr ps)) then Err
+  else if g && negb (is_some (aead_dem_ptr ps)) then Err
   else
     bind (spr (aead_dem_ptr ps)) (fun tm =>
     bind (parse_params_full tm) (fun dp =>
@@ -236,10 +222,11 @@ Definition ecies_params_F (spr : option template -> outcome template) (a : list 
          end)).
 Definition ecies_params2 (a : list field * N) : outcome params := ecies_params_of parse_params_full (fst a) (snd a).
 
-Lemma ecies_params_F_same a : ecies_params_F set_prefix_raw a = ecies_params2 a.
+Lemma ecies_params_F_same a : ecies_params_F true set_prefix_raw a = ecies_params2 a.
 Proof. reflexivity. Qed.
-Lemma ecies_params_F_reach : exists a, ecies_params_F always_panic a = Panic.
-Proof. exists ([(1, FLen [8; 2; 16; 3]); (2, FLen [18; 0]); (3, FVar 1)], 1). vm_compute. reflexivity. Qed.
+(* DEM params present, AEAD DEM template absent: the assignment goes through a nil pointer *)
+Lemma ecies_params_F_necessary : exists a, ecies_params_F false set_prefix_raw a = Panic.
+Proof. exists ([(1, FLen [8; 2; 16; 3]); (2, FLen []); (3, FVar 1)], 1). vm_compute. reflexivity. Qed.
 Lemma ecies_params2_np a : ecies_params2 a <> Panic.
 Proof. apply ecies_params_of_np. exact parse_params_full_np. Qed.
 
@@ -255,12 +242,6 @@ Definition make2 (p : Z * Z) : outcome bytes := make_z (fst p) (snd p).
 Definition index2 (p : bytes * Z) : outcome N := index_z (fst p) (snd p).
 Definition slice3z (p : bytes * Z * Z) : outcome bytes := slice_z (fst (fst p)) (snd (fst p)) (snd p).
 
-Lemma make2_panics : exists p, make2 p = Panic.
-Proof. exists (-1, 0). reflexivity. Qed.
-Lemma index2_panics : exists p, index2 p = Panic.
-Proof. exists ([], 0). reflexivity. Qed.
-Lemma slice3z_panics : exists p, slice3z p = Panic.
-Proof. exists ([], 0, 1). reflexivity. Qed.
 
 (* ---- internal/ec/ec.go BigIntBytesToFixedSizeBuffer ---- *)
 Fixpoint strip_loop_F (ix : bytes * Z -> outcome N) (fuel : nat) (b : bytes) (i limit : Z) : outcome bool :=
@@ -272,10 +253,12 @@ Fixpoint strip_loop_F (ix : bytes * Z -> outcome N) (fuel : nat) (b : bytes) (i 
       else Ok true
   end.
 
-Definition fixed_size_go_F (mk : Z * Z -> outcome bytes) (ix : bytes * Z -> outcome N) (sl : bytes * Z * Z -> outcome bytes)
+(* gm: the test in front of make (len < size); gs: the tests in front of the final slice (len == size returns,
+   len < size pads: the slice is reached only when len > size) *)
+Definition fixed_size_go_F (gm gs : bool) (mk : Z * Z -> outcome bytes) (ix : bytes * Z -> outcome N) (sl : bytes * Z * Z -> outcome bytes)
            (b : bytes) (size : Z) : outcome bytes :=
-  if zlen b =? size then Ok b
-  else if zlen b <? size then
+  if gs && (zlen b =? size) then Ok b
+  else if (gs && (zlen b <? size)) || (negb gm && negb (zlen b <? size)) then
     bind (mk (size - zlen b, size)) (fun buf => Ok (buf ++ b))
   else
     bind (strip_loop_F ix (length b) b 0 (zlen b - size)) (fun allzero =>
@@ -288,23 +271,28 @@ Proof.
   destruct (index_z b i) as [x| |]; cbn [bind]; try reflexivity. destruct (x =? 0)%N; [apply IH|reflexivity].
 Qed.
 
-Lemma fixed_size_go_F_same b size : fixed_size_go_F make2 index2 slice3z b size = fixed_size_go b size.
-Proof. unfold fixed_size_go_F, fixed_size_go. rewrite strip_loop_F_same. reflexivity. Qed.
+Lemma fixed_size_go_F_same b size : fixed_size_go_F true true make2 index2 slice3z b size = fixed_size_go b size.
+Proof.
+  unfold fixed_size_go_F, fixed_size_go. rewrite strip_loop_F_same. cbn [andb negb orb].
+  destruct (zlen b =? size); [reflexivity|]. rewrite orb_false_r. reflexivity.
+Qed.
 
 (* the caller passes a coordinate size: a non-negative constant (nat here) *)
-Definition bigint_make_F (mk : Z * Z -> outcome bytes) (a : bytes * nat) : outcome bytes :=
-  fixed_size_go_F mk index2 slice3z (fst a) (Z.of_nat (snd a)).
-Definition bigint_index_F (ix : bytes * Z -> outcome N) (a : bytes * nat) : outcome bytes :=
-  fixed_size_go_F make2 ix slice3z (fst a) (Z.of_nat (snd a)).
+Definition bigint_make_F (g : bool) (mk : Z * Z -> outcome bytes) (a : bytes * nat) : outcome bytes :=
+  fixed_size_go_F g true mk index2 slice3z (fst a) (Z.of_nat (snd a)).
+Definition bigint_slice_F (g : bool) (sl : bytes * Z * Z -> outcome bytes) (a : bytes * nat) : outcome bytes :=
+  fixed_size_go_F true g make2 index2 sl (fst a) (Z.of_nat (snd a)).
 
-Lemma bigint_make_F_reach : exists a, bigint_make_F always_panic a = Panic.
-Proof. exists ([], 1%nat). reflexivity. Qed.
-Lemma bigint_index_F_reach : exists a, bigint_index_F always_panic a = Panic.
-Proof. exists ([0; 0]%N, 1%nat). reflexivity. Qed.
-Lemma bigint_make_F_np a : bigint_make_F make2 a <> Panic.
+(* two bytes for size 1 and no test: make([]byte, -1, 1) *)
+Lemma bigint_make_F_necessary : exists a, bigint_make_F false make2 a = Panic.
+Proof. exists ([1; 2]%N, 1%nat). reflexivity. Qed.
+(* one byte for size 2 and no tests: bigIntBytes[-1:] *)
+Lemma bigint_slice_F_necessary : exists a, bigint_slice_F false slice3z a = Panic.
+Proof. exists ([1]%N, 2%nat). reflexivity. Qed.
+Lemma bigint_make_F_np a : bigint_make_F true make2 a <> Panic.
 Proof. unfold bigint_make_F. rewrite fixed_size_go_F_same. apply fixed_size_go_np. lia. Qed.
-Lemma bigint_index_F_np a : bigint_index_F index2 a <> Panic.
-Proof. unfold bigint_index_F. rewrite fixed_size_go_F_same. apply fixed_size_go_np. lia. Qed.
+Lemma bigint_slice_F_np a : bigint_slice_F true slice3z a <> Panic.
+Proof. unfold bigint_slice_F. rewrite fixed_size_go_F_same. apply fixed_size_go_np. lia. Qed.
 
 (* ---- signature/ecdsa/protoserialization.go: two BigIntBytesToFixedSizeBuffer(., c), then encodePoint ---- *)
 Definition encode_point_go_F (mk : Z * Z -> outcome bytes) (ix : bytes * Z -> outcome N) (sl : bytes * Z * Z -> outcome bytes)
@@ -320,21 +308,19 @@ Definition encode_point_go_F (mk : Z * Z -> outcome bytes) (ix : bytes * Z -> ou
 Lemma encode_point_go_F_same x y c : encode_point_go_F make2 index2 slice3z x y c = encode_point_go x y c.
 Proof. reflexivity. Qed.
 
-Definition new_point_F (mk : Z * Z -> outcome bytes) (sl : bytes * Z * Z -> outcome bytes) (a : bytes * bytes * nat) : outcome bytes :=
+(* guard: x and y are results of BigIntBytesToFixedSizeBuffer(., c) *)
+Definition new_point_slice_F (g : bool) (sl : bytes * Z * Z -> outcome bytes) (a : bytes * bytes * nat) : outcome bytes :=
   let c := Z.of_nat (snd a) in
-  bind (fixed_size_go (fst (fst a)) c) (fun x =>
-  bind (fixed_size_go (snd (fst a)) c) (fun y =>
-  encode_point_go_F mk index2 sl x y c)).
-Definition new_point_make_F mk := new_point_F mk slice3z.
-Definition new_point_slice_F sl := new_point_F make2 sl.
+  bind (if g then fixed_size_go (fst (fst a)) c else Ok (fst (fst a))) (fun x =>
+  bind (if g then fixed_size_go (snd (fst a)) c else Ok (snd (fst a))) (fun y =>
+  encode_point_go_F make2 index2 sl x y c)).
 
-Lemma new_point_make_F_reach : exists a, new_point_make_F always_panic a = Panic.
-Proof. exists ([], [], 1%nat). reflexivity. Qed.
-Lemma new_point_slice_F_reach : exists a, new_point_slice_F always_panic a = Panic.
-Proof. exists ([], [], 1%nat). reflexivity. Qed.
-Lemma new_point_F_np a : new_point_F make2 slice3z a <> Panic.
+(* a 3-byte x for c = 1: encodedPoint[1+1-3:] *)
+Lemma new_point_slice_F_necessary : exists a, new_point_slice_F false slice3z a = Panic.
+Proof. exists ([1; 2; 3]%N, [1]%N, 1%nat). reflexivity. Qed.
+Lemma new_point_slice_F_np a : new_point_slice_F true slice3z a <> Panic.
 Proof.
-  unfold new_point_F. cbv zeta.
+  unfold new_point_slice_F. cbv zeta.
   destruct (fixed_size_go (fst (fst a)) (Z.of_nat (snd a))) as [x| |] eqn:X; cbn [bind]; try discriminate.
   2:{ exfalso. eapply fixed_size_go_np; [|exact X]. lia. }
   destruct (fixed_size_go (snd (fst a)) (Z.of_nat (snd a))) as [y| |] eqn:Y; cbn [bind]; try discriminate.
@@ -343,60 +329,60 @@ Proof.
 Qed.
 
 (* ---- serializers: if len(publicPoint) != 2*coordinateSize+1 { error }; publicPoint[0]; publicPoint[1:], xy[:c], xy[c:] ---- *)
-Definition serializer_first_byte_F (ix : bytes * Z -> outcome N) (a : bytes * nat) : outcome N :=
+Definition serializer_first_byte_F (g : bool) (ix : bytes * Z -> outcome N) (a : bytes * nat) : outcome N :=
   let pt := fst a in
   let c := Z.of_nat (snd a) in
-  if negb (zlen pt =? 2 * c + 1) then Err else ix (pt, 0).
+  if g && negb (zlen pt =? 2 * c + 1) then Err else ix (pt, 0).
 
 Definition point_coords_go_F (sl : bytes * Z * Z -> outcome bytes) (pt : bytes) (c : Z) : outcome (bytes * bytes) :=
   bind (sl (pt, 1, zlen pt)) (fun xy =>
   bind (sl (xy, 0, c)) (fun x => bind (sl (xy, c, zlen xy)) (fun y => Ok (x, y)))).
-Definition serializer_coords_F (sl : bytes * Z * Z -> outcome bytes) (a : bytes * nat) : outcome (bytes * bytes) :=
+Definition serializer_coords_F (g : bool) (sl : bytes * Z * Z -> outcome bytes) (a : bytes * nat) : outcome (bytes * bytes) :=
   let pt := fst a in
   let c := Z.of_nat (snd a) in
-  if negb (zlen pt =? 2 * c + 1) then Err else point_coords_go_F sl pt c.
+  if g && negb (zlen pt =? 2 * c + 1) then Err else point_coords_go_F sl pt c.
 
-Lemma serializer_first_byte_F_reach : exists a, serializer_first_byte_F always_panic a = Panic.
-Proof. exists ([4; 0; 0]%N, 1%nat). reflexivity. Qed.
-Lemma serializer_coords_F_reach : exists a, serializer_coords_F always_panic a = Panic.
-Proof. exists ([4; 0; 0]%N, 1%nat). reflexivity. Qed.
-Lemma serializer_first_byte_F_np a : serializer_first_byte_F index2 a <> Panic.
+(* the empty point *)
+Lemma serializer_first_byte_F_necessary : exists a, serializer_first_byte_F false index2 a = Panic.
+Proof. exists ([], 1%nat). reflexivity. Qed.
+Lemma serializer_coords_F_necessary : exists a, serializer_coords_F false slice3z a = Panic.
+Proof. exists ([], 1%nat). reflexivity. Qed.
+Lemma serializer_first_byte_F_np a : serializer_first_byte_F true index2 a <> Panic.
 Proof.
-  unfold serializer_first_byte_F. cbv zeta. destruct (zlen (fst a) =? 2 * Z.of_nat (snd a) + 1) eqn:E; cbn [negb]; [|discriminate].
+  unfold serializer_first_byte_F. cbv zeta. cbn [andb]. destruct (zlen (fst a) =? 2 * Z.of_nat (snd a) + 1) eqn:E; cbn [negb]; [|discriminate].
   apply Z.eqb_eq in E. apply (first_byte_np _ (Z.of_nat (snd a))); [lia|exact E].
 Qed.
-Lemma serializer_coords_F_np a : serializer_coords_F slice3z a <> Panic.
+Lemma serializer_coords_F_np a : serializer_coords_F true slice3z a <> Panic.
 Proof.
-  unfold serializer_coords_F. cbv zeta. destruct (zlen (fst a) =? 2 * Z.of_nat (snd a) + 1) eqn:E; cbn [negb]; [|discriminate].
+  unfold serializer_coords_F. cbv zeta. cbn [andb]. destruct (zlen (fst a) =? 2 * Z.of_nat (snd a) + 1) eqn:E; cbn [negb]; [|discriminate].
   apply Z.eqb_eq in E. change (point_coords_go (fst a) (Z.of_nat (snd a)) <> Panic). apply point_coords_go_np; lia.
 Qed.
 
 (* ---- internal/signature/slhdsa DecodePublicKey: if len(pkEnc) != 2n { error }; pkEnc[0:n], pkEnc[n:2n] ---- *)
-Definition slh_decode_pk_F (sl : bytes * Z * Z -> outcome bytes) (a : nat * bytes) : outcome (bytes * bytes) :=
+Definition slh_decode_pk_F (g : bool) (sl : bytes * Z * Z -> outcome bytes) (a : nat * bytes) : outcome (bytes * bytes) :=
   let n := Z.of_nat (fst a) in
   let pk := snd a in
-  if negb (zlen pk =? 2 * n) then Err
+  if g && negb (zlen pk =? 2 * n) then Err
   else bind (sl (pk, 0, n)) (fun seed => bind (sl (pk, n, 2 * n)) (fun root => Ok (seed, root))).
 
-Lemma slh_decode_pk_F_reach : exists a, slh_decode_pk_F always_panic a = Panic.
-Proof. exists (1%nat, [1; 2]%N). reflexivity. Qed.
-Lemma slh_decode_pk_F_np a : slh_decode_pk_F slice3z a <> Panic.
+Lemma slh_decode_pk_F_necessary : exists a, slh_decode_pk_F false slice3z a = Panic.
+Proof. exists (1%nat, []). reflexivity. Qed.
+Lemma slh_decode_pk_F_np a : slh_decode_pk_F true slice3z a <> Panic.
 Proof.
   change (slh_decode_pk_go (Z.of_nat (fst a)) (snd a) <> Panic). apply slh_decode_go_np. lia.
 Qed.
 
 (* ---- keyset/handle.go Handle.Entry: if i < 0 || i >= h.Len() { error }; h.entries[i] ---- *)
 Definition entry_raw2 (p : list unit * Z) : outcome unit := entry_raw (fst p) (snd p).
-Definition entry_F (ix : list unit * Z -> outcome unit) (a : list unit * Z) : outcome unit :=
-  if (snd a <? 0) || (Z.of_nat (length (fst a)) <=? snd a) then Err else ix a.
+Definition entry_F (g : bool) (ix : list unit * Z -> outcome unit) (a : list unit * Z) : outcome unit :=
+  if g && ((snd a <? 0) || (Z.of_nat (length (fst a)) <=? snd a)) then Err else ix a.
 
-Lemma entry_raw2_panics : exists p, entry_raw2 p = Panic.
+(* Entry(0) on an empty handle, Entry(-1) *)
+Lemma entry_F_necessary : exists a, entry_F false entry_raw2 a = Panic.
 Proof. exists ([], 0). reflexivity. Qed.
-Lemma entry_F_reach : exists a, entry_F always_panic a = Panic.
-Proof. exists ([tt], 0). reflexivity. Qed.
-Lemma entry_F_np a : entry_F entry_raw2 a <> Panic.
+Lemma entry_F_np a : entry_F true entry_raw2 a <> Panic.
 Proof.
-  unfold entry_F. destruct ((snd a <? 0) || (Z.of_nat (length (fst a)) <=? snd a)) eqn:E; [discriminate|].
+  unfold entry_F. cbn [andb]. destruct ((snd a <? 0) || (Z.of_nat (length (fst a)) <=? snd a)) eqn:E; [discriminate|].
   apply orb_false_iff in E. destruct E as [E1 E2]. apply Z.ltb_ge in E1. apply Z.leb_gt in E2.
   apply entry_raw_np. lia.
 Qed.
